@@ -15,6 +15,7 @@ Pixels: `true` = white.
 -/
 import PdfVerif.Lemmas.CcittImage
 import PdfVerif.Lemmas.CcittTotal
+import PdfVerif.Lemmas.CcittBound
 import PdfVerif.Model.CcittStream
 
 namespace PdfVerif.Props.C19
@@ -246,6 +247,29 @@ theorem decode_total (K cols : Option Int) (al rv : Bool) (data : List UInt8)
     have : K ≠ some CcittCode.kGroup4 := hK
     simp only [ccittfaxdecode, this, ne_eq, not_false_eq_true, if_true]
 
+/-- Bounded output (hence bounded work per input byte): whatever the data, the decoder emits at most
+48 lines — 48·⌈width/8⌉ bytes — per input byte (6 per bit: the longest uncompressed-mode symbol;
+a T.6 mode code completes at most one line). -/
+theorem decode_output_bounded (K cols : Option Int) (al rv : Bool) (data out : List UInt8)
+    (hc : 1 ≤ cols.getD 1728) (h : ccittfaxdecode K cols al rv data = .ok out) :
+    out.length ≤ 48 * data.length * (((cols.getD 1728).toNat + 7) / 8) := by
+  have hc' : ¬ ((cols.getD 1728) ≤ 0) := by omega
+  simp only [ccittfaxdecode, CcittCode.columnsDefault, hc'] at h
+  split at h
+  · cases h
+  · simp only [if_false] at h
+    cases hf : feedBytes (initSt (cols.getD 1728).toNat al rv) data with
+    | error e => rw [hf] at h; cases h
+    | ok st' =>
+      rw [hf] at h
+      simp only [Except.ok.injEq] at h
+      subst h
+      have hwt : WT (initSt (cols.getD 1728).toNat al rv) := wt_mode _ rfl rfl
+      have g := feedBytes_grew data _ st' hwt (by simp [initSt]) hf
+      have := g.buf
+      simp only [initSt, List.length_nil, Nat.zero_add, lineBytes] at this
+      exact this
+
 /-- The same for the dictionary route: only `PDFException`s (`InvalidData`, `PDFValueError`,
 `PDFNotImplementedError`) or, for objects outside the model's domain (non-integer Columns, a
 predictor, …), the explicit `unmodelled` marker come out of the CCITT branch — and for a
@@ -337,5 +361,9 @@ example :
     (ccittfaxdecode (some (-1)) (some 3) false false [0xFF, 0x12, 0x34]).toOption = some [0xE0, 0xE0, 0xE0, 0xE0, 0xE0, 0xE0, 0xE0, 0xE0, 0xE0] ∧
     (ccittfaxdecode (some 0) (some 3) false false [0xFF]).toOption = none := by
   decide +kernel
+
+/-- `decode_output_bounded` on the all-ones data above: 9 bytes out of 3 bytes in, bound 144. -/
+example : (9 : Nat) ≤ 48 * [0xFF, 0x12, 0x34].length * ((((some 3 : Option Int).getD 1728).toNat + 7) / 8) := by
+  decide
 
 end PdfVerif.Props.C19
